@@ -116,6 +116,7 @@ type FileSpec struct {
 	Name     string
 	Naming   map[string]string // lib key -> "" (plain) | alias | "."
 	Snippets []int
+	Blank    []string // libraries imported for side effects only (import _ "path")
 	Src      string
 }
 
@@ -199,7 +200,13 @@ func RenderFile(fs *FileSpec, pkgName string, unique int) string {
 	sort.Strings(keys)
 	var sb strings.Builder
 	sb.WriteString("package " + pkgName + "\n\n")
-	if len(keys) > 0 {
+	var blanks []string
+	for _, k := range fs.Blank {
+		if !used[k] {
+			blanks = append(blanks, k)
+		}
+	}
+	if len(keys)+len(blanks) > 0 {
 		sb.WriteString("import (\n")
 		for _, k := range keys {
 			l := libByKey(k)
@@ -208,6 +215,9 @@ func RenderFile(fs *FileSpec, pkgName string, unique int) string {
 			} else {
 				sb.WriteString("\t\"" + l.ImportPath + "\"\n")
 			}
+		}
+		for _, k := range blanks {
+			sb.WriteString("\t_ \"" + libByKey(k).ImportPath + "\"\n")
 		}
 		sb.WriteString(")\n\n")
 	}
@@ -267,6 +277,11 @@ func GenProgram(r *rand.Rand, nfiles int) *Program {
 			}
 			takenNames[eff] = true
 			fs.Naming[l.Key] = name
+		}
+		for _, l := range Libs {
+			if !used[l.Key] && r.Intn(4) == 0 {
+				fs.Blank = append(fs.Blank, l.Key)
+			}
 		}
 		p.Files = append(p.Files, fs)
 	}
